@@ -45,6 +45,8 @@ type bhGenerator struct {
 	burnHow  int         // ... and one block later 0: every validator operator votes NoWithVeto, 1: nobody votes (no quorum), 2: its deposit stays below the minimum
 	burnProp uint64      // id of the scripted proposal once it is known
 	ext      bhGenExt    // parameter operations and blocked recipients (blockparams.go)
+	fee      *feeGen     // fee-market regime of the history (feeregime.go)
+	fillers  map[int]int // filler transactions emitted per block
 }
 
 var bhKindWeights = map[string]int{
@@ -70,7 +72,9 @@ var bhFocusKinds = map[string][]string{
 }
 
 func newBhGenerator(r *Rng, nblocks int, focus string) *bhGenerator {
-	g := &bhGenerator{r: r, focus: focus, nblocks: nblocks, evidAt: -1, upgrade: -1, dist: map[string]int{}}
+	g := &bhGenerator{r: r, focus: focus, nblocks: nblocks, evidAt: -1, upgrade: -1, dist: map[string]int{}, fillers: map[int]int{}}
+	// the fee-market regime comes from a generator of its own, split off without advancing r
+	g.fee = newFeeGen(&Rng{s: r.s ^ 0x5EEDFEE5C0FFEE}, nblocks)
 	names := []string{}
 	for k := range bhKindWeights {
 		names = append(names, k)
@@ -129,7 +133,7 @@ func (g *bhGenerator) genesis() bhGenesis {
 	r := g.r
 	return bhGenesis{NVal: 2 + r.Intn(3), MaxVals: 3 + r.Intn(3), Coinomics: r.Chance(80), Window: 4 + 2*r.Intn(3),
 		UnbondSecs: []int{15, 40, 120}[r.Intn(3)], VoteSecs: []int{12, 25, 60}[r.Intn(3)],
-		Extra: g.extra, MinDep: g.minDep, NoBurn: g.noBurn}
+		Extra: g.extra, MinDep: g.minDep, NoBurn: g.noBurn, Fee: g.fee.fee}
 }
 
 func (g *bhGenerator) block(i int) bhBlock {
@@ -161,6 +165,12 @@ func (g *bhGenerator) ntx(i int) int {
 	n := g.r.Intn(7)
 	if g.r.Chance(10) {
 		n = 0
+	}
+	if g.fee.quiet[i] {
+		n = 0
+	}
+	if g.fee.heavy[i] && n < 3 {
+		n = 3
 	}
 	if i == g.upgrade {
 		n++
@@ -340,6 +350,11 @@ func (g *bhGenerator) genTx(h *histRun, b *bhBlock, blockIdx, i int) *bhTx {
 		// ... and is vetoed by the operators of the genesis validators (they hold the voting power)
 		g.dist["vote"]++
 		return &bhTx{K: "vote", F: i, N: int64(g.burnProp), V: 4}
+	}
+	if g.fillers[blockIdx] < 4 && g.fillerNeeded(rep, blockIdx) {
+		g.fillers[blockIdx]++
+		g.dist["filler"]++
+		return g.fillerTx(rep)
 	}
 	k := g.extKind(g.pickKind())
 	if k == "redeem" && len(a.LiquidVestingKeeper.GetAllDenoms(ctx)) == 0 {
